@@ -9,6 +9,37 @@ EXPL = ("Type-level encoding judged by the compiler: a catalogue of minimal clie
         "missing import) cannot pass. Obligations = programs; discharged = programs with the expected verdict.")
 
 
+def check_restart_bound(ctx, fx, RULE="R19.b"):
+    from props.c04 import marker_sites
+    import graph
+    RA = "actor::restart_strategy::RestartableActor"
+    n = 0
+    for f, _b, _bi, _si, st in marker_sites(fx, "Restart"):
+        work = [(f.get("root", f["def"]), 0)]
+        seen = set()
+        while work:
+            r, d = work.pop()
+            if r in seen:
+                continue
+            seen.add(r)
+            rf = fx.fn(r)
+            if rf is None:
+                continue
+            public = rf.get("vis") == "pub" and rf["kind"] in ("fn", "assoc_fn")
+            if public or rf.get("impl_trait_def"):
+                n += 1
+                bounded = any(b_.endswith(": " + RA) for b_ in (rf.get("bounds") or []))
+                # (the event loops and the restart strategies are generic over the strategy, not bounded on the actor: they
+                # *handle* the request; what is judged here is who can *make* one)
+                ctx.require(bounded, RULE, "restart-needs-restartable:" + r, "a public function builds a Restart request without requiring `A: RestartableActor`: restart becomes available for actor types that did not opt in", fn=r, site=st.get("l"), detail=rf.get("bounds"))
+                continue
+            if d < 3:
+                for c in graph.callers_of(fx, r):
+                    cf = fx.fn(c) or {}
+                    work.append((cf.get("root", c), d + 1))
+    ctx.floor(RULE, "public makers of a Restart request", n, 2)
+
+
 def run(ctx):
     ctx.explanation = EXPL
     ctx.assumptions = ["rustc's type checker (stable toolchain of the repository)", "hannibal-derive is not used by the witnesses (impls are written out)"]
@@ -58,6 +89,10 @@ def run(ctx):
         from props import c16
         fx = ctx.facts("tokio")
         core.shared(ctx, "R19.c", c16.check_child_store, ctx, fx, "R19.c")
+        # R19.b "restart is only available for restartable actor types" — also for an entry point that does not exist yet and
+        # that no witness can name: every public function of the crate that builds a `Payload::Restart` (itself, or a private
+        # function it calls) is bounded by `RestartableActor` on its actor type
+        check_restart_bound(ctx, fx)
     ctx.floor("R19", "witness programs", n, 100)
     res = {"results": all_results}
     n_ok = sum(1 for r in res["results"] if r["ok"])
